@@ -89,6 +89,10 @@ let gen_history (idx : int) (prof : eprofile) (oc : out_channel) =
   let registered () = List.map (fun (nm, _) -> String.concat "" (List.map (fun x -> String.make 1 (Char.chr (int_of_n x))) nm)) !y.y_cl.cl_registered in
   let payload () = let l = pick [0; 1; 3; 20] in hex_of_bytes (List.init l (fun k -> nn ((k * 5 + l) land 255))) in
   let subs () = List.map (fun (_, (route, _)) -> route) !y.y_cl.cl_handlers in
+  (* a conforming broker does not reuse a packet identifier that may still be in use: within a history every QoS 1/2
+     message of the broker gets a new one (a sleeping client can leave an exchange open for a long time) *)
+  let next_bmid = ref (500 + rnd 200) in
+  let fresh_bmid () = let m = !next_bmid in next_bmid := m + 1 + rnd 3; m in
   let bpub () =
     (* a message of another client on a topic some subscription of ours matches *)
     match subs () with
@@ -106,7 +110,7 @@ let gen_history (idx : int) (prof : eprofile) (oc : out_channel) =
       let q = pickw [ (3, 0); (4, 1); (4, 2) ] in
       let n = if rnd 100 < prof.e_burst then 2 + rnd 2 else 1 in
       let spec k = Printf.sprintf "PUBLISH dup=0 qos=%d retain=0 topic=%s mid=%d payload=%s" q (hex_of_bytes (if same then name0 else mk_name ()))
-          (if q = 0 then 0 else 500 + 3 * rnd 130 + k) (hex_of_bytes (List.init (1 + k) (fun j -> nn ((j * 7 + k + rnd 50) land 255)))) in
+          (if q = 0 then 0 else fresh_bmid ()) (hex_of_bytes (List.init (1 + k) (fun j -> nn ((j * 7 + k + rnd 50) land 255)))) in
       if n > 1 && prof.e_lossy = 0 && coin () then
         (* a true burst: the gateway handles all of them before the client's first answer arrives *)
         emit_or_skip ("BBURST " ^ String.concat " | " (List.init n (fun k -> spec (k + 1))))
